@@ -354,6 +354,13 @@ class Model():
         for field_name in (left_field_name, right_field_name):
             field_assets = getattr(association, field_name)
 
+            # Check the types and the number of the assets explicitly. The
+            # generated classes only validate a field that changed since it
+            # was last validated, and forget that it changed even when that
+            # validation failed: a second attempt would be let through.
+            field_assets.validate_items()
+            field_assets.validate_length()
+
             for field_asset in field_assets:
                 if not _contains(self.assets, field_asset):
                     raise ModelAssociationException(
